@@ -71,6 +71,7 @@ def check(ctx):
     ctx.must_call(ES + "::yield_back", Call(re.escape(C) + "::check_cancel"), "default-yield-back-checks", "the default yield_back raises the Cancel panic")
     # ---- check_cancel
     CK = C + "::check_cancel"
+    shared.check_cancel_consumes(ctx)
     ctx.order(CK, Call(r"may::yield_now::get_co_para"), TRIGGER, "consume-before-panic", "the injected result is consumed before the Cancel panic (it must not leak to the next user of the stack)")
     ctx.guarded(CK, TRIGGER, call_false(r"std::thread::panicking"), "no-double-panic", "no Cancel panic while already unwinding", pred_label="edge `thread::panicking()` is false")
     ctx.guarded(CK, TRIGGER, lambda a: a.kind == "cmp" and a.op == "Eq" and is_call_result(A("load"), C + ".state")(a.a) and is_const(1)(a.b),
@@ -167,3 +168,6 @@ def check(ctx):
                    "%s.wait_kernel starts false: a cancelled coroutine whose yield short-circuits (never enters subscribe) can drop the Park" % adt if ok else
                    "%s.wait_kernel starts true but only subscribe's guard clears it: a coroutine cancelled before it blocks spins forever in Drop (yield_now short-circuits too)" % adt,
                    f.where(site))
+    # dependency (seed C09-6): a cancelled first reader must not leave the reader count behind
+    ctx.import_rules("C12", r"^read/")
+    shared.injected_kinds(ctx)
